@@ -7,17 +7,17 @@ From PV Require Import Gen.PinsC07.
 Import ListNotations.
 Theorem hand_modelled_sources_unchanged_C07 : PinsC07.pins = [
   ("rust/src/parsing.rs::parse_datetime"%string, "b26c67e8252311784e7a"%string);
-  ("rust/src/parsing.rs::parse_time"%string, "f111297409cf1ff8e99a"%string);
+  ("rust/src/parsing.rs::parse_time"%string, "a4e26fde7d5a18ee838a"%string);
   ("rust/src/parsing.rs::iso_to_ymd"%string, "ee5fb4a85fe16a9f70a9"%string);
   ("rust/src/parsing.rs::ordinal_to_ymd"%string, "7e977d85da80bf93bd24"%string);
   ("rust/src/parsing.rs::parse_integer"%string, "93702772d3ab350a3a8d"%string);
   ("rust/src/parsing.rs::parse"%string, "3cb046de4ca77103518c"%string);
   ("rust/src/python/parsing.rs::parse_iso8601"%string, "6a9c023548d1e6a11957"%string);
-  ("src/pendulum/parsing/iso8601.py::parse_iso8601"%string, "c9a2489fa8395525a7a0"%string);
+  ("src/pendulum/parsing/iso8601.py::parse_iso8601"%string, "d8d0e5d081f4fe3e7d88"%string);
   ("src/pendulum/parsing/iso8601.py::_get_iso_8601_week"%string, "8481f4c7fed131f5ba16"%string);
-  ("src/pendulum/parsing/__init__.py::_parse"%string, "7392ae6f31621b1a4260"%string);
+  ("src/pendulum/parsing/__init__.py::_parse"%string, "e1bf5535db80f1c278b8"%string);
   ("src/pendulum/parsing/__init__.py::_normalize"%string, "429d43efb9876a9af7a5"%string);
   ("src/pendulum/parsing/__init__.py::parse"%string, "750e155f220ccc282c77"%string);
-  ("src/pendulum/parser.py::_parse"%string, "d40523039d688e682e47"%string)].
+  ("src/pendulum/parser.py::_parse"%string, "73897f7e0482fd280005"%string)].
 Proof. exact eq_refl. Qed.
 Print Assumptions hand_modelled_sources_unchanged_C07.
